@@ -825,70 +825,143 @@ def common_repo():
     return common.REPO
 
 
-def loopback_case(tc, ts, W, P, n, to_client, watchdog=12.0):
-    """open_session with explicit sizes; move n bytes (server->client when to_client) while the receiver keeps
-    reading.  Returns a list of (key, what)."""
+READERS = ("recv", "recv-small", "select-small", "select-stderr-mix")
+HALF = (None, "before", "mid")
+
+
+def loopback_open(tc, ts, W, P, watchdog=12.0):
+    """open_session with explicit sizes; returns (client channel, server channel, problems)"""
     from paramiko.common import MIN_WINDOW_SIZE, MIN_PACKET_SIZE, MAX_WINDOW_SIZE
     probs = []
     ch = tc.open_session(window_size=W, max_packet_size=P, timeout=watchdog)
     sch = ts.accept(watchdog)
     if sch is None:
-        return [("loopback-open", "server never saw the channel")]
-    try:
-        want_w = max(MIN_WINDOW_SIZE, min(tc.default_window_size if W is None else W, MAX_WINDOW_SIZE))
-        want_p = max(MIN_PACKET_SIZE, min(tc.default_max_packet_size if P is None else P, MAX_WINDOW_SIZE))
-        # what the client channel accounts with is what it advertised, and the peer stored exactly that
-        obs = {"client.in_window_size": ch.in_window_size, "client.in_window_threshold": ch.in_window_threshold,
-               "server.out_window_size": sch.out_window_size, "server.out_max_packet_size": sch.out_max_packet_size,
-               "server.in_window_size": sch.in_window_size, "server.in_window_threshold": sch.in_window_threshold,
-               "client.out_window_size": ch.out_window_size}
-        if ch.in_window_size != want_w or sch.out_window_size != want_w or sch.out_max_packet_size != want_p:
-            probs.append(("open-window-mismatch", "open_session(window_size=%r, max_packet_size=%r): expected window %d / "
-                          "packet %d on both ends, observed %r" % (W, P, want_w, want_p, obs)))
-        for name, c in (("client", ch), ("server", sch)):
-            # hypothesis of C20_progress: the ack threshold is below the window the peer was granted
-            if not (0 <= c.in_window_threshold < c.in_window_size) or c.in_window_threshold != c.in_window_size // 10:
-                probs.append(("threshold-not-below-window", "%s channel: in_window_threshold %d, in_window_size %d "
-                              "(open_session(window_size=%r))" % (name, c.in_window_threshold, c.in_window_size, W)))
-        if ch.out_window_size != sch.in_window_size:
-            probs.append(("open-window-mismatch", "client sends against window %d, server accounts %d" % (
-                ch.out_window_size, sch.in_window_size)))
-        snd, rcv = (sch, ch) if to_client else (ch, sch)
-        snd.settimeout(watchdog)
-        rcv.settimeout(0.2)
-        err = []
+        return ch, None, [("loopback-open", "server never saw the channel")]
+    want_w = max(MIN_WINDOW_SIZE, min(tc.default_window_size if W is None else W, MAX_WINDOW_SIZE))
+    want_p = max(MIN_PACKET_SIZE, min(tc.default_max_packet_size if P is None else P, MAX_WINDOW_SIZE))
+    # what the client channel accounts with is what it advertised, and the peer stored exactly that
+    obs = {"client.in_window_size": ch.in_window_size, "client.in_window_threshold": ch.in_window_threshold,
+           "server.out_window_size": sch.out_window_size, "server.out_max_packet_size": sch.out_max_packet_size,
+           "server.in_window_size": sch.in_window_size, "server.in_window_threshold": sch.in_window_threshold,
+           "client.out_window_size": ch.out_window_size}
+    if ch.in_window_size != want_w or sch.out_window_size != want_w or sch.out_max_packet_size != want_p:
+        probs.append(("open-window-mismatch", "open_session(window_size=%r, max_packet_size=%r): expected window %d / "
+                      "packet %d on both ends, observed %r" % (W, P, want_w, want_p, obs)))
+    for name, c in (("client", ch), ("server", sch)):
+        # hypothesis of C20_progress: the ack threshold is below the window the peer was granted
+        if not (0 <= c.in_window_threshold < c.in_window_size) or c.in_window_threshold != c.in_window_size // 10:
+            probs.append(("threshold-not-below-window", "%s channel: in_window_threshold %d, in_window_size %d "
+                          "(open_session(window_size=%r))" % (name, c.in_window_threshold, c.in_window_size, W)))
+    if ch.out_window_size != sch.in_window_size:
+        probs.append(("open-window-mismatch", "client sends against window %d, server accounts %d" % (
+            ch.out_window_size, sch.in_window_size)))
+    return ch, sch, probs
 
-        def sender():
-            try:
+
+def loopback_transfer(ch, sch, W, P, n, to_client, reader="recv", half=None, watchdog=12.0):
+    """Move n bytes over an open channel pair through the real Transport threads (server->client when to_client)
+    while the receiving application keeps reading in the given style:
+      recv              recv(65536) in a loop
+      recv-small        recv(512) in a loop
+      select-small      the documented fileno()/select() interface: select on the channel, then ONE recv(700)
+      select-stderr-mix same, the sender alternating stdout / stderr chunks, the reader draining whichever is ready
+    half: the RECEIVER half-closes its own sending direction (shutdown_write, the usual `stdin.close()` of an exec
+    client) before the transfer / in the middle of it; its EOF really travels to the peer's Transport thread."""
+    import select
+    probs = []
+    snd, rcv = (sch, ch) if to_client else (ch, sch)
+    snd.settimeout(watchdog)
+    rcv.settimeout(0.2)
+    err = []
+    mix = reader == "select-stderr-mix"
+    if half == "before":
+        rcv.shutdown_write()
+        t_end = time.time() + 3.0
+        while not snd.eof_received and time.time() < t_end:
+            time.sleep(0.005)
+        if not snd.eof_received:
+            probs.append(("eof-not-delivered", "peer never saw the EOF of shutdown_write()"))
+
+    def sender():
+        try:
+            if mix:
+                left, flip = n, False
+                while left > 0:
+                    k = min(left, 3000)
+                    (snd.sendall_stderr if flip else snd.sendall)(bytes(k))
+                    left -= k
+                    flip = not flip
+            else:
                 snd.sendall(bytes(n))
-            except Exception as e:  # noqa
-                err.append(repr(e))
-        th = threading.Thread(target=sender, daemon=True)
-        th.start()
-        got = 0
-        deadline = time.time() + watchdog
-        while got < n and time.time() < deadline:
-            try:
+        except Exception as e:  # noqa
+            err.append(repr(e))
+    th = threading.Thread(target=sender, daemon=True)
+    th.start()
+    got = 0
+    shut_done = half != "mid"
+    blind = 0
+    deadline = time.time() + watchdog
+    while got < n and time.time() < deadline:
+        if not shut_done and got >= n // 3:
+            rcv.shutdown_write()
+            shut_done = True
+        try:
+            if reader == "recv":
                 got += len(rcv.recv(65536))
-            except socket.timeout:
-                pass
+            elif reader == "recv-small":
+                got += len(rcv.recv(512))
+            else:
+                r, _, _ = select.select([rcv], [], [], 0.1)
+                if r:
+                    blind = 0
+                    if rcv.recv_ready():
+                        got += len(rcv.recv(700))
+                    if mix and rcv.recv_stderr_ready():
+                        got += len(rcv.recv_stderr(700))
+                elif rcv.recv_ready() or rcv.recv_stderr_ready():
+                    # data is buffered but the channel's file descriptor does not say so
+                    blind += 1
+                    if blind >= 3:
+                        probs.append(("fileno-not-readable-with-buffered-data",
+                                      "select() on Channel.fileno() reports not readable three times in a row while "
+                                      "recv_ready() is true (%d stdout + %d stderr bytes buffered after %d of %d bytes "
+                                      "were read in pieces of 700): a select-driven reader stops consuming, no window "
+                                      "is granted (sender window %d) and the transfer deadlocks" % (
+                                          len(rcv.in_buffer), len(rcv.in_stderr_buffer), got, n, snd.out_window_size)))
+                        break
+        except socket.timeout:
+            pass
+    if not probs or probs[-1][0] != "fileno-not-readable-with-buffered-data":
         th.join(max(0.1, deadline - time.time()) + 1.0)
         if got != n or err or th.is_alive():
-            probs.append(("transfer-stalled", "open_session(window_size=%r, max_packet_size=%r): %s received %d of %d "
-                          "bytes while reading continuously for %.0f s (sender window %d, receiver in_window_sofar %d, "
-                          "threshold %d, window %d; sender error %s)" % (
-                              W, P, "client" if to_client else "server", got, n, watchdog, snd.out_window_size,
-                              rcv.in_window_sofar, rcv.in_window_threshold, rcv.in_window_size, err[:1])))
-    finally:
-        try:
-            ch.close()
-            sch.close()
-        except Exception:  # noqa
-            pass
+            probs.append(("transfer-stalled", "open_session(window_size=%r, max_packet_size=%r), reader %s, receiver "
+                          "half-close %s: %s received %d of %d bytes while reading continuously for %.0f s (sender window "
+                          "%d, receiver in_window_sofar %d, threshold %d, window %d, sender saw EOF: %s; sender error %s)"
+                          % (W, P, reader, half, "client" if to_client else "server", got, n, watchdog,
+                             snd.out_window_size, rcv.in_window_sofar, rcv.in_window_threshold, rcv.in_window_size,
+                             bool(snd.eof_received), err[:1])))
     return probs
 
 
+def loopback_case(tc, ts, W, P, n, to_client, reader="recv", half=None, watchdog=12.0, keep=False):
+    ch, sch, probs = loopback_open(tc, ts, W, P, watchdog)
+    if sch is None:
+        return probs, None
+    try:
+        probs += loopback_transfer(ch, sch, W, P, n, to_client, reader, half, watchdog)
+    finally:
+        if not keep or probs:
+            for c in (ch, sch):
+                try:
+                    c.close()
+                except Exception:  # noqa
+                    pass
+    return probs, (ch, sch) if keep and not probs else None
+
+
 def loopback_runs(ctx, ncases):
+    """Real Transport pair, several channels with different explicit windows.  The first channel stays open and is
+    used again after all the others (two live objects of the class, the first re-used after the second)."""
     rng = ctx.rng
     try:
         tc, ts = loopback_pair()
@@ -897,18 +970,40 @@ def loopback_runs(ctx, ncases):
         return
     try:
         grid = [(32768, 4096), (40000, None), (None, None), (100, 100), (65536, 32768), (200000, 8192)]
+        # reader style x receiver half-close: the fixed four always run, the rest rotate with the seed
+        combos = [("select-small", None), ("recv", "before"), ("select-small", "before"), ("recv-small", "mid")]
+        rest = [(r, h) for r in READERS for h in HALF if (r, h) not in combos]
+        rng.shuffle(rest)
+        combos += rest
+        first = None
+        failed = False
         for j in range(ncases):
-            W, P = grid[j] if j < len(grid) else (rng.randrange(32768, 400000), rng.choice([None, 4096, 20000, 32768]))
+            W, P = grid[(j + ctx.seed) % len(grid)] if j < len(grid) else (
+                rng.randrange(32768, 400000), rng.choice([None, 4096, 20000, 32768]))
+            reader, half = combos[j % len(combos)]
             eff = max(32768, W or 2097152)
-            n = min(3 * eff + rng.randrange(0, 5000), 700000)
+            n = min(3 * eff + rng.randrange(0, 5000), 700000 if reader == "recv" else 150000)
             to_client = j % 4 != 3
-            case = {"loopback": True, "W": W, "P": P, "n": n, "to_client": to_client}
-            probs = loopback_case(tc, ts, W, P, n, to_client)
-            ctx.count(("loopback", W, P, n, to_client), kind="loopback-open_session")
+            case = {"loopback": True, "W": W, "P": P, "n": n, "to_client": to_client, "reader": reader, "half": half}
+            probs, kept = loopback_case(tc, ts, W, P, n, to_client, reader, half, keep=(j == 0))
+            if kept:
+                first = (kept, W, P, to_client)
+            ctx.count(("loopback", W, P, n, to_client, reader, half), kind="loopback-%s-half:%s" % (reader, half))
             for key, what in probs[:2]:
                 ctx.fail(key, what, case=case, observed=what)
             if probs:
+                failed = True
                 break       # a stalled channel may have wedged the pair
+        if first is not None and not failed:
+            (ch, sch), W, P, to_client = first
+            n = 3 * max(32768, W or 2097152) + 17
+            n = min(n, 150000)
+            case = {"loopback": True, "W": W, "P": P, "n": n, "to_client": to_client, "reader": "recv-small",
+                    "half": None, "reuse_first_channel_after": ncases - 1}
+            probs = loopback_transfer(ch, sch, W, P, n, to_client, "recv-small", None)
+            ctx.count(("loopback-reuse", W, P, n), kind="loopback-reuse-first-channel")
+            for key, what in probs[:2]:
+                ctx.fail(key, what, case=case, observed=what)
     finally:
         for t in (tc, ts):
             try:
@@ -1153,7 +1248,17 @@ def replay(ctx, rep):
     if case.get("loopback"):
         tc, ts = loopback_pair()
         try:
-            probs = loopback_case(tc, ts, case["W"], case["P"], case["n"], case["to_client"])
+            if case.get("reuse_first_channel_after"):
+                # the first channel stays open while other channels come and go, then is used again
+                ch, sch, probs = loopback_open(tc, ts, case["W"], case["P"])
+                probs += loopback_transfer(ch, sch, case["W"], case["P"], case["n"], case["to_client"])
+                for _ in range(case["reuse_first_channel_after"]):
+                    p2, _k = loopback_case(tc, ts, 32768, 4096, 40000, True)
+                    probs += p2
+                probs += loopback_transfer(ch, sch, case["W"], case["P"], case["n"], case["to_client"], "recv-small")
+            else:
+                probs, _k = loopback_case(tc, ts, case["W"], case["P"], case["n"], case["to_client"],
+                                          case.get("reader", "recv"), case.get("half"))
         finally:
             tc.close()
             ts.close()
